@@ -208,6 +208,34 @@ def u_proceed(c):
                                                                           it.to_val(v) == Val.ref(p_cm(i)) if v is not False else True), kind="auxiliary")
 
 
+@unit("proceed.interactor-per-activation", ["C09", "C05", "C03", "C07", "C02", "C06"], [PROCEED, I + ":Interactor.__init__"])
+def u_proceed_interactor_per_activation(c):
+    """Every activation gets an interactor of its own -- also when no selector is pending or none fits: the interactor is where the
+    activation keeps what belongs to it alone (the accumulators registered for it, and the collections to go back to and to re-install
+    when a generator is suspended and resumed); two live activations of one function (recursion, a generator advancing another one)
+    must not share it."""
+    it = Interp(c)
+    checks = []
+    _install_common(it, checks)
+    k = c.choose(2, "pending")  # 0 nothing pending, 1 one pair that does not fit (a pair that fits: units proceed / proceed-bounded)
+    pairs = []
+    if k:
+        c.assume(z3.Not(p_fits(z3.IntVal(0))))
+        c.assume(z3.Not(p_cached(z3.IntVal(0))))
+        pairs = [_mk_pair_sym(it, z3.IntVal(0))]
+        pairs[0][0].attrs["_index"] = z3.IntVal(0)
+    hc = mk_obj(it, O, "HandlerCollection", handler_pairs=list(pairs))
+    fn = SymObj("fn", Val.ref(z3.IntVal(c.new_id())), attrs=dict(_FN_NAMES, __ptera_info__={}), closed=True)
+    st1, r1 = run(it, it.getattr(hc, "proceed"), [fn])
+    st2, r2 = run(it, it.getattr(hc, "proceed"), [fn])
+    c.prove("no-raise", st1 == "ok" and st2 == "ok")
+    if st1 != "ok" or st2 != "ok":
+        return
+    c.prove("two-activations-of-one-function-have-two-interactors", isinstance(r1[0], Obj) and isinstance(r2[0], Obj) and r1[0] is not r2[0]
+            and r1[0].fields["fn"] is fn and r2[0].fields["fn"] is fn)
+    c.prove("and-two-collections", r1[1] is not r2[1])
+
+
 @unit("proceed-bounded", ["C03", "C07", "C04", "C09", "C02", "C12", "C06", "C13", "C05", "C11", "C16"], [PROCEED], mode="bounded", bound="2 pending pairs (own accumulators, or siblings sharing one), <=1 child each, all flag combinations",
       fallback_for="proceed", max_paths=20000, replay=_replay_file("c03_proceed.py"))
 def u_proceed_b(c):
